@@ -183,6 +183,7 @@ IO_TYPES = [("f32", Ty("scalar", s="f32")), ("vec2<f32>", Ty("vec", n=2, s="f32"
 def program(rng, **kw):
     """A module with host structs (used by globals of several address spaces), unused structs, function-local
     structs, vertex input structs, inter-stage structs, fragment outputs. Returns dict with wgsl + truth."""
+    bias = kw.pop("roles_bias", False)      # make multi-role structs (result + host, vertex + host, ...) likely
     g = Gen(rng, **kw)
     lines, decls = [], []
     roles = {}   # struct name -> set of roles
@@ -219,10 +220,27 @@ def program(rng, **kw):
         if t.kind != "atomic":
             globals_.append(("uniform", "g%d" % b, t, b))
             b += 1
+    # a struct reachable ONLY through an array of arrays (directly from a variable, or as a member of a wrapper struct)
+    grid_structs = []
+    if rng.random() < (0.5 if bias else 0.25):
+        cell = g.new_struct("Cell%d" % rng.randint(0, 9), depth=0, nmembers=rng.randint(2, 3))
+        g.structs.remove(cell)
+        grid_structs.append(cell)
+        outer = Ty("array", elem=Ty("array", elem=cell, n=rng.choice([2, 3])), n=rng.choice([2, 4]))
+        sp = "storage_rw" if any(x.kind == "atomic" for x in all_leafs(cell)) else rng.choice(["storage_ro", "storage_rw"])
+        if rng.random() < 0.5:
+            globals_.append((sp, "g%d" % b, outer, b))
+            used_by_global.append(outer)
+        else:
+            grid = Ty("struct", name="Grid", members=[("n", Ty("scalar", s="u32")), ("cells", outer)], has_rts=False)
+            grid_structs.append(grid)
+            globals_.append((sp, "g%d" % b, grid, b))
+            used_by_global.append(grid)
+        b += 1
     # vertex inputs / interstage / fragment outputs
     vin, inter, fout = [], None, None
     io_lines = []
-    nentry = rng.choice([0, 1, 1, 2])
+    nentry = rng.choice([0, 1, 1, 2]) if not bias else rng.choice([1, 2, 2, 2, 2])
     for i in range(rng.choice([0, 1, 1, 2]) if nentry else 0):
         n = rng.randint(1, 4)
         names = rng.sample(FIELD_NAMES, n)
@@ -238,7 +256,7 @@ def program(rng, **kw):
         inter = Ty("struct", name="Inter", members=ms, has_rts=False)
         io_lines.append("struct Inter {\n  @builtin(position) clip: vec4<f32>,\n  @location(0) uv: vec2<f32>,\n}")
     shared_host_vertex = None
-    if nentry and host_structs and rng.random() < 0.3:
+    if nentry and host_structs and rng.random() < (0.5 if bias else 0.3):
         # a host struct that is ALSO a vertex input is only possible when its members are valid io types: make a fresh one
         variant = rng.randrange(3)
         if variant == 0:
@@ -257,10 +275,10 @@ def program(rng, **kw):
         used_by_global.append(shared_host_vertex)
         b += 1
     fout_host = False
-    if nentry and rng.random() < 0.4:
+    if nentry and rng.random() < (0.85 if bias else 0.4):
         fout = Ty("struct", name="FOut", members=[("c0", Ty("vec", n=4, s="f32")), ("c1", Ty("vec", n=4, s="f32"))], has_rts=False)
         io_lines.append("struct FOut {\n  @location(0) c0: vec4<f32>,\n  @location(1) c1: vec4<f32>,\n}")
-        if rng.random() < 0.35:
+        if rng.random() < (0.7 if bias else 0.35):
             # an entry point result that is ALSO host-shareable (element of a storage array / member of a host struct)
             fout_host = True
             if rng.random() < 0.5:
@@ -281,7 +299,7 @@ def program(rng, **kw):
         extra.append("struct Local { t: f32, u: u32 }")
 
     # render
-    for s in host_structs + ([rts_struct] if rts_struct else []):
+    for s in host_structs + ([rts_struct] if rts_struct else []) + grid_structs:
         lines.append(g.render_struct(s))
     lines += io_lines + extra
     for sp, n, t, bi in globals_:
@@ -326,7 +344,10 @@ def program(rng, **kw):
         if shared_host_vertex:
             emitted.add("Both")
     # Inter: entry argument of fs_main but also the result of vs_main -> not emitted; FOut: result only
-    order = [s.name for s in host_structs] + ([rts_struct.name] if rts_struct else []) + [s.name for s in vin] \
+    for s in grid_structs:
+        all_structs[s.name] = s
+    order = [s.name for s in host_structs] + ([rts_struct.name] if rts_struct else []) + [s.name for s in grid_structs] \
+        + [s.name for s in vin] \
         + (["Inter"] if inter else []) + (["Both"] if shared_host_vertex else []) + (["FOut"] if fout else []) \
         + (["WrapsOut"] if "WrapsOut" in host else [])
     if fout:
